@@ -396,12 +396,14 @@ static void smo_check(const Json& c, Out& o) {
     std::vector<ld> ptarget;
     ld gabs = 1;
     for (int q = 0; q < np; ++q) {
-        const double A = amp_of(c.getd(fmt("L%d", q)));
+        // "z<q>": exact digital silence (0.0) for this phase: level below every threshold, target gain 0 dB
+        const bool silent = c.geti(fmt("z%d", q), 0) != 0;
+        const double A = silent ? 0.0 : amp_of(c.getd(fmt("L%d", q)));
         const int len = c.geti(fmt("n%d", q)), mode = r.range(0, 2);
         for (int j = 0; j < len; ++j) x.push_back(mode == 0 ? A : mode == 1 ? ((j & 1) ? -A : A) : (r.coin() ? A : -A));
-        const ld li = dbl(A);
+        const ld li = silent ? ld(-400) : dbl(A);
         plen.push_back(len);
-        ptarget.push_back(curve(li, T, invR, W) - li);   // computed gain in dB for this level
+        ptarget.push_back(silent ? ld(0) : curve(li, T, invR, W) - li);   // computed gain in dB for this level
         gabs = std::max(gabs, std::fabs(ptarget.back()) + 1);
     }
     std::vector<double> out, gain;
@@ -468,7 +470,7 @@ static void smo_gen(Ctx& ctx) {
         for (int q = 0; q < np; ++q) {
             const int k = pick(0, 3);
             const double L = k == 0 ? pickd(-100, p.T - p.W / 2) : k == 1 ? pickd(p.T - p.W / 2, p.T + p.W / 2) : k == 2 ? pickd(p.T + p.W / 2, 20) : pickd(-100, 20);
-            j.set(fmt("L%d", q), L).set(fmt("n%d", q), pick_log(1, 3000));
+            j.set(fmt("L%d", q), L).set(fmt("n%d", q), pick_log(1, 3000)).set(fmt("z%d", q), pick(0, 5) == 5 ? 1 : 0);
         }
         return j.set("seed", (long long)seed64());
     });
